@@ -60,11 +60,41 @@
 ;;> a string not including the newline.  Reads at most \var{n}
 ;;> characters, defaulting to 8192.
 
+;; fgets counts bytes: if it stopped in the middle of a multi-byte
+;; character, read the remaining bytes of that character
+(define (%complete-utf8 res in)
+  (if (not (string? res))
+      res
+      (let* ((bv (%string->utf8 res))
+             (len (bytevector-length bv)))
+        (let lp ((i (- len 1)) (k 0))
+          (cond
+           ((or (< i 0) (> k 3)) res)
+           ((= 2 (quotient (bytevector-u8-ref bv i) 64)) ; continuation byte
+            (lp (- i 1) (+ k 1)))
+           (else
+            (let* ((b (bytevector-u8-ref bv i))
+                   (missing (- (cond ((< b #xC0) 0) ((< b #xE0) 1) ((< b #xF0) 2) (else 3))
+                               k)))
+              (if (<= missing 0)
+                  res
+                  (let ((bv2 (make-bytevector (+ len missing) 0)))
+                    (do ((j 0 (+ j 1))) ((= j len))
+                      (bytevector-u8-set! bv2 j (bytevector-u8-ref bv j)))
+                    (let lp2 ((j 0))
+                      (if (= j missing)
+                          (utf8->string bv2)
+                          (let ((c (read-u8 in)))
+                            (if (eof-object? c)
+                                (utf8->string bv2 0 (+ len j))
+                                (begin (bytevector-u8-set! bv2 (+ len j) c)
+                                       (lp2 (+ j 1))))))))))))))))
+
 (define (%read-line n in)
   (cond
    ((stream-port? in) ;;(port-fileno in)
     (port-line-set! in (+ 1 (port-line in)))
-    (%%read-line n in))
+    (%complete-utf8 (%%read-line n in) in))
    (else
     (let ((out (open-output-string)))
       (let lp ((i 0))
